@@ -151,6 +151,10 @@ def regenerate():
     # definitions, Generated/PyLogic.lean (see py2lean.py)
     import py2lean
     py2lean.generate()
+    # extension E42: whole functions with the numerical work abstracted (coarse_grid_solver, MultilevelSolver.solve,
+    # solver_configuration) -> Generated/PyLogic2.lean (see py2lean2.py)
+    import py2lean2
+    py2lean2.generate()
 
 
 def pin():
